@@ -327,11 +327,13 @@ func init() {
 	T["(*sync.WaitGroup).Add"] = func(ex *Exec, fn *ssa.Function, args []Value) Value {
 		k := args[0].(Ptr).key()
 		ex.wg[k] += int(sext(args[1].(*Term).val, 64))
+		ex.raceSync("wg:"+k, false, true)
 		ex.syncPoint("wg.Add")
 		return nil
 	}
 	T["(*sync.WaitGroup).Done"] = func(ex *Exec, fn *ssa.Function, args []Value) Value {
 		k := args[0].(Ptr).key()
+		ex.raceSync("wg:"+k, false, true)
 		ex.wg[k]--
 		if ex.wg[k] < 0 {
 			panic(&goPanic{msg: "sync: negative WaitGroup counter"})
@@ -342,6 +344,7 @@ func init() {
 	T["(*sync.WaitGroup).Wait"] = func(ex *Exec, fn *ssa.Function, args []Value) Value {
 		k := args[0].(Ptr).key()
 		ex.block(func() bool { return ex.wg[k] == 0 }, "WaitGroup.Wait")
+		ex.raceSync("wg:"+k, true, false)
 		return nil
 	}
 	T["(*sync.Once).Do"] = func(ex *Exec, fn *ssa.Function, args []Value) Value {
@@ -349,12 +352,15 @@ func init() {
 		if !ex.once[key] {
 			ex.once[key] = true
 			ex.doCall(args[1], nil)
+			ex.raceSync("once:"+key, false, true)
 		}
+		ex.raceSync("once:"+key, true, false)
 		return nil
 	}
 	T["(*sync.Pool).Get"] = func(ex *Exec, fn *ssa.Function, args []Value) Value {
 		p := args[0].(Ptr)
 		key := p.key()
+		ex.raceSync("pool:"+key, true, false)
 		bag := ex.pools[key]
 		pick := -1
 		if len(bag) > 0 {
@@ -380,6 +386,7 @@ func init() {
 	}
 	T["(*sync.Pool).Put"] = func(ex *Exec, fn *ssa.Function, args []Value) Value {
 		key := args[0].(Ptr).key()
+		ex.raceSync("pool:"+key, false, true)
 		ex.pools[key] = append(ex.pools[key], args[1])
 		return nil
 	}
@@ -387,16 +394,19 @@ func init() {
 	for _, ty := range []string{"Int32", "Int64", "Uint32", "Uint64", "Uintptr", "Pointer"} {
 		T["sync/atomic.Load"+ty] = func(ex *Exec, fn *ssa.Function, args []Value) Value {
 			ex.syncPoint("atomic.Load")
+			ex.raceAtomic(args[0].(Ptr), false)
 			return args[0].(Ptr).load()
 		}
 		T["sync/atomic.Store"+ty] = func(ex *Exec, fn *ssa.Function, args []Value) Value {
 			ex.syncPoint("atomic.Store")
+			ex.raceAtomic(args[0].(Ptr), true)
 			args[0].(Ptr).store(args[1])
 			return nil
 		}
 		T["sync/atomic.Add"+ty] = func(ex *Exec, fn *ssa.Function, args []Value) Value {
 			ex.syncPoint("atomic.Add")
 			p := args[0].(Ptr)
+			ex.raceAtomic(p, true)
 			nv := Bin("+", p.load().(*Term), args[1].(*Term), true)
 			p.store(nv)
 			return nv
@@ -404,6 +414,7 @@ func init() {
 		T["sync/atomic.Swap"+ty] = func(ex *Exec, fn *ssa.Function, args []Value) Value {
 			ex.syncPoint("atomic.Swap")
 			p := args[0].(Ptr)
+			ex.raceAtomic(p, true)
 			old := p.load()
 			p.store(args[1])
 			return old
@@ -411,6 +422,7 @@ func init() {
 		T["sync/atomic.CompareAndSwap"+ty] = func(ex *Exec, fn *ssa.Function, args []Value) Value {
 			ex.syncPoint("atomic.CAS")
 			p := args[0].(Ptr)
+			ex.raceAtomic(p, true)
 			if ex.branch(ex.valEq(p.load(), args[1])) {
 				p.store(args[2])
 				return tTrue
@@ -424,16 +436,19 @@ func init() {
 		}
 		T["(*sync/atomic."+ty+").Load"] = func(ex *Exec, fn *ssa.Function, args []Value) Value {
 			ex.syncPoint("atomic.Load")
+			ex.raceAtomic(last(args[0].(Ptr)), false)
 			return last(args[0].(Ptr)).load()
 		}
 		T["(*sync/atomic."+ty+").Store"] = func(ex *Exec, fn *ssa.Function, args []Value) Value {
 			ex.syncPoint("atomic.Store")
+			ex.raceAtomic(last(args[0].(Ptr)), true)
 			last(args[0].(Ptr)).store(args[1])
 			return nil
 		}
 		T["(*sync/atomic."+ty+").Add"] = func(ex *Exec, fn *ssa.Function, args []Value) Value {
 			ex.syncPoint("atomic.Add")
 			p := last(args[0].(Ptr))
+			ex.raceAtomic(p, true)
 			nv := Bin("+", p.load().(*Term), args[1].(*Term), true)
 			p.store(nv)
 			return nv
@@ -441,15 +456,18 @@ func init() {
 	}
 	T["(*sync/atomic.Bool).Load"] = func(ex *Exec, fn *ssa.Function, args []Value) Value {
 		ex.syncPoint("atomic.Load")
+		ex.raceAtomic(args[0].(Ptr).field(1), false)
 		return Not(Eq(args[0].(Ptr).field(1).load().(*Term), Const(32, 0)))
 	}
 	T["(*sync/atomic.Bool).Store"] = func(ex *Exec, fn *ssa.Function, args []Value) Value {
 		ex.syncPoint("atomic.Store")
+		ex.raceAtomic(args[0].(Ptr).field(1), true)
 		args[0].(Ptr).field(1).store(Ite(args[1].(*Term), Const(32, 1), Const(32, 0)))
 		return nil
 	}
 	T["(*sync/atomic.Value).Load"] = func(ex *Exec, fn *ssa.Function, args []Value) Value {
 		ex.syncPoint("atomic.Load")
+		ex.raceAtomic(args[0].(Ptr).field(0), false)
 		return args[0].(Ptr).field(0).load()
 	}
 	T["(*sync/atomic.Value).Store"] = func(ex *Exec, fn *ssa.Function, args []Value) Value {
@@ -457,6 +475,7 @@ func init() {
 		if args[1].(Iface).t == nil {
 			panic(&goPanic{msg: "sync/atomic: store of nil value into Value"})
 		}
+		ex.raceAtomic(args[0].(Ptr).field(0), true)
 		args[0].(Ptr).field(0).store(args[1])
 		return nil
 	}
@@ -517,6 +536,7 @@ func init() {
 		c := &CtxV{done: &ChanV{}}
 		return Tuple{nativeIface(c), &NativeFn{name: "cancel", f: func(ex *Exec, _ []Value) Value {
 			ex.syncPoint("cancel")
+			ex.raceRelease(fmt.Sprintf("ch:%p", c.done))
 			c.cancelled = true
 			c.done.closed = true
 			return nil
